@@ -29,6 +29,44 @@ LEVEL_NOTE = "Trusted: z3, summaries of C06."
 
 def setup_sym(R):
     hw.setup_wallet_sym(R)
+    from props import C03
+    C03.install_fresh_entropy_stubs()
+
+
+def fresh_network(E, R, via, nwords, testnet):
+    """the constructors that draw fresh entropy: the wallet that comes back carries the network that was asked for --
+    also when the first draw does not give a valid master key (all PRF outputs are explored; BIP32 then asks for an error,
+    and whatever the library does instead, it may not hand out a wallet of the other network)"""
+    bits = {12: 128, 15: 160, 18: 192, 21: 224, 24: 256}[nwords]
+    if via == "new_wallet":
+        w = E.run(R.paper_wallet.PaperWallet.new_wallet, nwords, "", testnet)
+    else:
+        w = E.run(R.paper_wallet.PaperWallet.from_entropy_bits, bits, "", testnet)
+    if isinstance(w, Raised):
+        return "raised"
+    E.check(w.testnet is testnet and w.master.testnet is testnet, "a freshly created wallet carries the network that was asked for")
+    for kind in ("p2pkh", "p2wpkh"):
+        a = E.run(getattr(w, kind + "_address"), w.master)
+        cls, net = hw.classify(E, R, a) if not isinstance(a, Raised) else ("raised", None)
+        E.check(cls == "address" and net == ("test" if testnet else "main"), "a freshly created wallet emits addresses of the network that was asked for")
+    d = E.run(w.node_extended_keys, w.master)
+    if not isinstance(d, Raised):
+        for key in ("pub", "prv"):
+            cls, net = hw.classify(E, R, d[key])
+            E.check(net == ("test" if testnet else "main"), "a freshly created wallet emits extended keys of the network that was asked for")
+    return "ok"
+
+
+def cli_vector(E, R, **kw):
+    """end-to-end runs of `python -m btc_hd_wallet` that build the wallet from an extended key or with --testnet (C20's vectors)"""
+    from props import C20
+    return C20.cli_vector(E, R, **kw)
+
+
+def _cli_vectors():
+    from props import C20
+    return [(fn, params, w) for (fn, params, w) in C20.vectors()
+            if fn == "cli_vector" and params.get("expect") == "ok" and ("from-master-xprv" in params["argv"] or "--testnet" in params["argv"])]
 
 
 def _expect(E, R, obj, testnet, label, skip=("BIP85",)):
@@ -172,6 +210,9 @@ def two_wallets(E, R, first_testnet):
 
 def cases(tier):
     cs = []
+    for (via, nw, t) in (("new_wallet", 12, True), ("from_entropy_bits", 24, True), ("new_wallet", 18, False)):
+        cs.append(Case("fresh_network[%s,%d,testnet=%s]" % (via, nw, t), "fresh_network", dict(via=via, nwords=nw, testnet=t), weight=5,
+                       need=("a freshly created wallet carries the network that was asked for",)))
     for t in (False, True):
         for ln in ((0, 2) if tier == "quick" else (0, 1, 2, 3)):
             cs.append(Case("generate[testnet=%s,len=%d]" % (t, ln), "generate", dict(testnet=t, ln=ln), weight=10 * (ln + 1), max_paths=5000,
@@ -198,4 +239,4 @@ def vectors():
     return [("generate", dict(testnet=True, ln=2), {"k": k, "c": c, "account": 1, "start": 3}),
             ("addresses", dict(testnet=True, watch=True), {"k": k, "c": c}),
             ("two_wallets", dict(first_testnet=False), {"k": k, "c": c}),
-            ("reimport", dict(purpose=84, testnet=True, kind="prv"), w), ("reimport", dict(purpose=49, testnet=False, kind="pub"), w)]
+            ("reimport", dict(purpose=84, testnet=True, kind="prv"), w), ("reimport", dict(purpose=49, testnet=False, kind="pub"), w)] + _cli_vectors()
